@@ -546,15 +546,20 @@ func (g *genCtx) c05Workload(sc *ConcScenario, hot int) {
 		}
 		sc.Setup = su
 		nr := 2 + g.r.Intn(2)
+		slow := g.r.Bool(0.5)
 		for i := 0; i < nr; i++ {
-			if g.r.Bool(0.5) {
+			if g.r.Bool(0.5) && !(slow && i == 0) {
 				ph.Tasks = append(ph.Tasks, []Op{{K: MLoadOrStore, Key: key, Val: g.val()}})
 			} else {
-				ph.Tasks = append(ph.Tasks, []Op{{K: MLoadOrCompute, Key: key, Val: g.val()}})
+				// (in the slow variant the first racer sits inside its function,
+				// holding the bucket, while the table is emptied and shrunk)
+				ph.Tasks = append(ph.Tasks, []Op{{K: MLoadOrCompute, Key: key, Val: g.val(), Slow: slow && i == 0}})
 			}
 		}
 		ph.Tasks = append(ph.Tasks, []Op{{K: XBulkDelete, Key: prefillBase, N: n}, {K: XBulkInsert, Key: prefillBase, Val: prefillVal, N: n}})
-		ph.Stall = &StallCfg{Task: g.r.Intn(nr), AtStep: 2 + g.r.Intn(6), Resume: true}
+		if !slow {
+			ph.Stall = &StallCfg{Task: g.r.Intn(nr), AtStep: 2 + g.r.Intn(6), Resume: true}
+		}
 		ph.Delays = nil
 		return
 	}
